@@ -21,6 +21,7 @@ import (
 	"io"
 	"io/fs"
 	"os"
+	"path"
 	"reflect"
 	"regexp"
 	"sort"
@@ -540,7 +541,7 @@ func wrNewWorld(kind, baseKind string, treeSeed uint64, plan string) *wrWorld {
 }
 
 func (w *wrWorld) failFunc(v avfs.VFSBase, fn avfs.FnVFS, fp *failfs.FailParam) error {
-	name := fn.String()
+	name := "Fn" + strings.TrimPrefix(fn.String(), "Fn")
 	i := w.counts[name]
 	w.counts[name]++
 	var err error
@@ -683,7 +684,7 @@ func (w *wrWorld) step(op wrOp, cover map[string]int) (string, string) {
 			}
 			runTwin = !wrPermErr(ans.err) && class != "config"
 		case injected:
-			if !op.file && wrCompositeV[op.m] && !(len(w.consults) > 0 && strings.HasSuffix(w.consults[0], "*")) {
+			if !op.file && wrCompositeV[op.m] && !(len(w.consults) > 0 && w.consults[0] == "Fn"+op.m+"*") {
 				// a primitive inside a composite was failed
 				if ans.err == "-" {
 					fails = append(fails, "SWALLOW:"+op.m+":"+strings.Join(w.failed, "+"))
@@ -916,23 +917,31 @@ func wrGenArgs(r *rng, file bool, m string) []string {
 	return nil
 }
 
-// OrefaFS panics on relative names of existing entries (slice bounds in its path handling - not a
-// wrapper matter): histories over OrefaFS bases use absolute names only.
+// OrefaFS panics on relative names of existing entries and on Rename with uncleaned names (slice
+// bounds / nil map in its path handling - not a wrapper matter): histories over OrefaFS bases use
+// absolute, cleaned names only.
 func wrAbsify(baseKind string, file bool, m string, a []string) []string {
 	if baseKind != "orefa" || file {
 		return a
 	}
 	fix := func(i int) {
 		if i < len(a) && strings.HasPrefix(a[i], "s") {
-			if s := wrStr(a[i]); !strings.HasPrefix(s, "/") {
-				a[i] = wrS("/tmp/" + s)
+			s := wrStr(a[i])
+			if !strings.HasPrefix(s, "/") {
+				s = "/tmp/" + s
 			}
+			a[i] = wrS(path.Clean(s))
 		}
 	}
 	switch m {
 	case "Join", "SetUser", "SetUserByName", "IsPathSeparator", "HasFeature", "SetFeatures", "SetIdm", "SetUMask":
 		return a
-	case "Link", "Symlink", "Rename", "Rel", "SameFile":
+	case "Rename":
+		// OrefaFS.Rename of an existing file panics ("assignment to entry in nil map") in the pinned
+		// tree: only the failing rename of a missing source is exercised over OrefaFS
+		fix(1)
+		a[0] = wrS("/tmp/zz")
+	case "Link", "Symlink", "Rel", "SameFile":
 		fix(0)
 		fix(1)
 	default:
